@@ -671,7 +671,11 @@ def refine_droplet(
             _image_deviation, data_flat[free], bounds=bounds, **least_squares_params
         )
         data_flat[free] = result.x
-    droplet.data = unstructured_to_structured(data_flat, dtype=dtype)
+    # store the result as a record backed by an array (like the data of all other
+    # droplets), so the parameters of the refined droplet can be accessed as attributes,
+    # which is for instance necessary for merging droplets
+    data = unstructured_to_structured(data_flat, dtype=dtype)
+    droplet.data = data.reshape(1).view(np.recarray)[0]
 
     # normalize the droplet position
     grid = phase_field.grid
